@@ -157,25 +157,6 @@ Print Assumptions C10mk_varalign_initial_total.
 
 (* ---------- a variable assignment's alignment prefix, value and comment ---------- *)
 
-(* The full statement: whenever matchVarassign accepts a (single raw) line, the
-   alignment prefix MkLine.ValueAlign() = leadingComment + varnameOp +
-   spaceBeforeValue of VaralignSplitter.split(raw, true), the value (re-escaped),
-   the space before the comment and the comment recombine to the line.
-   It is FALSE of the code: VaralignSplitter re-parses the raw text, matchVarassign
-   parses the unescaped text without the comment, and the two disagree. *)
-Definition C10mk_varassign_recombines_full : Prop :=
-  forall (text : str) (a : varassign), parse_varassign text = Ok (Some a) ->
-  exists (p : varalign_parts) (mid : str),
-    varalign_split text true = Ok p /\
-    text = (vp_leading_comment p ++ vp_varname_op p ++ vp_space_before_value p) ++ mid ++
-           sr_space_before_comment (va_split a) ++ comment_tail (va_split a) /\
-    unescape_hash mid = va_value a.
-
-(* witness: the line  $\#=  (the variable named `$#`) *)
-Theorem C10mk_varassign_recombines_refuted : ~ C10mk_varassign_recombines_full.
-Proof. exact varassign_recombines_refuted. Qed.
-Print Assumptions C10mk_varassign_recombines_refuted.
-
 (* What does hold for EVERY line that matchVarassign accepts (the part of the law
    that involves matchVarassign's own pieces): the line is [#] ++ pre ++ comment
    ("#" only for a commented assignment, comment with its leading '#'), and the
